@@ -166,3 +166,32 @@ Proof.
         -- clear -D. induction D as [|a l Ha D IH]; constructor; [|exact IH].
            eapply Forall_impl; [|exact Ha]. intros b [H _]. exact H.
 Qed.
+
+(* ---------- what remove_indices requires of its queue ---------- *)
+(* C13_remove_indices_spec asks for StronglySorted lt: STRICTLY increasing.  The premise cannot be weakened to
+   "non-decreasing": after removing index r the closure waits for the next queue entry, and a second r never comes
+   (i has moved on), so every later index is ignored — [1;1;2] removes only position 1. *)
+Lemma remove_indices_needs_strict :
+  StronglySorted le [1; 1; 2] /\ ~ StronglySorted lt [1; 1; 2] /\
+  remove_indices 0 [1; 1; 2] [10; 11; 12] = [10; 12] /\ filter_idx 0 [1; 1; 2] [10; 11; 12] = [10].
+Proof.
+  split; [repeat constructor|]. split.
+  - intros S. inversion S as [|? ? _ H]; subst. inversion H as [|? ? C _]; subst. lia.
+  - split; vm_compute; reflexivity.
+Qed.
+
+(* and the sweep of remove_overlaps never produces such a queue, equal lints included: every index is pushed at
+   most once (sweep_sorted), so remove_overlaps = "filter by position" on every input *)
+Lemma ro_is_filter_idx ls : 2 <= length ls ->
+  remove_overlaps ls = filter_idx 0 (sweep 0 0 (lsort ls)) (lsort ls).
+Proof.
+  intros H. unfold remove_overlaps. destruct (length ls <? 2) eqn:E; [apply Nat.ltb_lt in E; lia|].
+  cbv zeta. apply remove_indices_filter0, sweep_sorted.
+Qed.
+
+Lemma exact_duplicates_example :
+  let a := mklint (mkspan 10 20) 7 in let b := mklint (mkspan 12 15) 8 in
+  remove_overlaps [a; a; b] = [a] /\ remove_overlaps [b; a; a; a] = [a] /\
+  sweep 0 0 (lsort [a; a; b]) = [1; 2] /\
+  (let z := mklint (mkspan 5 5) 9 in remove_overlaps [z; z; a] = [z; z; a]).
+Proof. cbv zeta. repeat split; vm_compute; reflexivity. Qed.
